@@ -297,6 +297,10 @@ fn alphabet(seed: u64) -> Vec<Val> {
     );
     add("255 ^{ 0x1010a \"#fmt\" ^}", "Cell::Int(255).insert_tag(Cell::from(\"#fmt\"), Cell::Int(0x1010a))", tag(Cell::Int(255), fmt.clone(), Cell::Int(0x1010a)), false);
     add("\"1\" ^{ 37 \"#fmt\" ^}", "Cell::from(\"1\").insert_tag(Cell::from(\"#fmt\"), Cell::Int(37))", tag(Cell::from("1"), fmt.clone(), Cell::Int(37)), false);
+    // hand-made format tags whose base field is below every legal radix (0, 1, and 0 again above the flag bits)
+    add("\"10\" ^{ 0 \"#fmt\" ^}", "Cell::from(\"10\").insert_tag(Cell::from(\"#fmt\"), Cell::Int(0))", tag(Cell::from("10"), fmt.clone(), Cell::Int(0)), false);
+    add("\"10\" ^{ 1 \"#fmt\" ^}", "Cell::from(\"10\").insert_tag(Cell::from(\"#fmt\"), Cell::Int(1))", tag(Cell::from("10"), fmt.clone(), Cell::Int(1)), false);
+    add("\"10\" ^{ 4096 \"#fmt\" ^}", "Cell::from(\"10\").insert_tag(Cell::from(\"#fmt\"), Cell::Int(4096))", tag(Cell::from("10"), fmt.clone(), Cell::Int(4096)), false);
     add("[ 1 ] ^{ -1 \"#fmt\" ^}", "Cell::from(xeh_vec![1]).insert_tag(Cell::from(\"#fmt\"), Cell::Int(-1))", tag(Cell::from(v0.clone()), fmt.clone(), Cell::Int(-1)), false);
     // host object and function cells (reachable through push_data only)
     add("(host object)", "Cell::from_any(0u8)", Cell::from_any(0u8), false);
@@ -541,7 +545,7 @@ const TEXT_SIGMA: &[char] = &[
 
 fn api_ops() -> Vec<ApiOp> {
     let mut v = vec![];
-    for s in ["1 2 +", "#(", "1 #( 2", ": f", "[ 1", "#)", ";", "]", "foo", "begin 1 drop repeat", "1 var x", ": g 1 ; g", "\"s\" error"] {
+    for s in ["1 2 +", "#(", "1 #( 2", ": f", "[ 1", "#)", ";", "]", "foo", "begin 1 drop repeat", "1 var x", ": g 1 ; g", "\"s\" error", ": f immediate f ;", ": h immediate 1 ; : k h h ;", ": m 1 immediate m", "3 0 do J drop loop", "2 0 do 2 0 do K drop loop loop", ": jj J ; 2 0 do jj drop loop"] {
         v.push(ApiOp { name: "eval", kind: 0, src: s });
     }
     for s in ["1 2 +", "#(", "1 #( 2", ": f", "[ 1", "begin 1 drop repeat", ": g 1 ; g", "foo"] {
